@@ -148,8 +148,10 @@ def imag_sign(expr, env):
 
 
 # ------------------------------------------------------------------------------------------------
-def generate(repo):
-    g = Gen('C01', imports=['PrysmVerif.PyPrelude', 'PrysmVerif.Model.C01'], opens=['Model.C01'])
+def generate(repo, pid='C01', extra_imports=(), extra_opens=(), extra=None):
+    """pid/extra: tools/gen_c02.py re-emits the same items into `Generated.C02` and appends its own"""
+    g = Gen(pid, imports=['PrysmVerif.PyPrelude', 'PrysmVerif.Model.C01'] + list(extra_imports),
+            opens=['Model.C01'] + list(extra_opens))
     ft, _ = load(repo, 'prysm/fttools.py')
     pr, _ = load(repo, 'prysm/propagation.py')
 
@@ -580,6 +582,8 @@ def generate(repo):
 
     # =========================================================================== FFT route
     fft_route_items(g, ft, pr)
+    if extra is not None:
+        extra(g, ft, pr)
     return g.finish()
 
 
